@@ -717,8 +717,9 @@ var catalogue = []mutation{
 		return false
 	}},
 	{"benign-plugin-source-respelled-canonical", false, func(t *rapid.T, w *world, _ *auxData) bool {
+		// (the canonical spelling comes from the generator's rule, not from the library)
 		for _, p := range w.step.Plugins {
-			if fs := p.FullSource(); fs != p.Source {
+			if fs, known := w.canon[p.Source]; known && fs != p.Source {
 				p.Source = fs
 				return true
 			}
